@@ -400,6 +400,38 @@ def decodeReq (bs : Bytes) : Option Decoded :=
   | none => none
   | some (body, rest) => decodeBody v fl stream op body rest
 
+/-- The same with compression negotiated on the connection (`dec` = the algorithm's decompression, may
+    fail): header flag 0x01 says the `length` bytes after the header are the compressed form of the body
+    (everything after the header: custom payload and message); STARTUP and OPTIONS are never compressed
+    (they precede / establish the negotiation). A frame without the flag is read as it is. -/
+def decodeReqC (dec : Bytes → Option Bytes) (bs : Bytes) : Option Decoded :=
+  match rdByte bs with
+  | none => none
+  | some (v, r) =>
+  if v < 1 ∨ v > 5 then none else
+  match rdByte r with
+  | none => none
+  | some (fl, r) =>
+  match rdStream v r with
+  | none => none
+  | some (stream, r) =>
+  match rdByte r with
+  | none => none
+  | some (op, r) =>
+  match rdInt r with
+  | none => none
+  | some (len, r) =>
+  if len < 0 then none else
+  match takeN len.toNat r with
+  | none => none
+  | some (body, rest) =>
+    if bit fl 0 then
+      if op = 0x01 ∨ op = 0x05 then none else
+      match dec body with
+      | none => none
+      | some plain => decodeBody v (fl - 1) stream op plain rest
+    else decodeBody v fl stream op body rest
+
 /-! ## which logical requests a protocol version can carry -/
 
 def fitsShort (b : Bytes) : Bool := b.length ≤ 65535
